@@ -1233,6 +1233,45 @@ func extractLocks(repo string, o *out) {
 		o.lines = append(o.lines, fmt.Sprintf("def rrCursorAddBits : Nat := %d", addBits))
 		o.lines = append(o.lines, fmt.Sprintf("def rrCursorModBits : Nat := %d", modBits))
 	}
+	// C17 / C03: the stream low watermark is a uint32 and the stream counters are int32: every read of the watermark
+	// for a comparison is widened on the spot - the call is the sole argument of an `int64(…)` conversion - so Go's
+	// typing forces the comparison to be made in int64 (Proofs/Widths.lean); the only other reads are the
+	// `== 0` tests of the defaulting code
+	{
+		widened, zeroTests, other := 0, 0, 0
+		for _, f := range []string{"gcp_balancer.go", "gcp_picker.go"} {
+			af := parse(filepath.Join(repo, "grpcgcp", f))
+			covered := map[ast.Node]bool{}
+			isRead := func(e ast.Expr) bool {
+				ce, ok := e.(*ast.CallExpr)
+				if !ok {
+					return false
+				}
+				se, ok := ce.Fun.(*ast.SelectorExpr)
+				return ok && se.Sel.Name == "GetMaxConcurrentStreamsLowWatermark"
+			}
+			ast.Inspect(af, func(n ast.Node) bool {
+				switch x := n.(type) {
+				case *ast.CallExpr:
+					if id, ok := x.Fun.(*ast.Ident); ok && id.Name == "int64" && len(x.Args) == 1 && isRead(x.Args[0]) {
+						widened++
+						covered[x.Args[0]] = true
+					} else if isRead(x) && !covered[x] {
+						other++
+					}
+				case *ast.BinaryExpr:
+					if (x.Op.String() == "==" || x.Op.String() == "!=") && isRead(x.X) && exprString(x.Y) == "0" {
+						zeroTests++
+						covered[x.X] = true
+					}
+				}
+				return true
+			})
+		}
+		o.lines = append(o.lines, fmt.Sprintf("def watermarkReadsWidened : Nat := %d", widened))
+		o.lines = append(o.lines, fmt.Sprintf("def watermarkZeroTests : Nat := %d", zeroTests))
+		o.lines = append(o.lines, fmt.Sprintf("def watermarkOtherReads : Nat := %d", other))
+	}
 	// C06: enforceMinSize is `for len(gb.scRefs) < min { if !gb.addSubConn() { break } }`: one loop whose guard
 	// compares the pool size, whose body calls addSubConn exactly once, as the whole condition of an `if` that
 	// leaves the loop (break / return) - whatever the failure pattern of the connection factory, every
